@@ -109,7 +109,15 @@ func c11Codecs(p *Prog, r *Report) {
 		r.Anchor("C11.R2", "stickycookie.HashValue", "not found")
 		return
 	}
-	hashFn := p.MethodOf(hv, "hash")
+	// role: the module function of the package that calls the (foreign) hash primitive
+	var hashFn *ssa.Function
+	for _, fn := range p.PkgFuncs("roundrobin/stickycookie") {
+		for _, c := range Calls(fn) {
+			if o := calleeObj(c.Common()); o != nil && o.Pkg() != nil && strings.Contains(o.Pkg().Path(), "fasthash") {
+				hashFn = fn
+			}
+		}
+	}
 	get, find := p.MethodOf(hv, "Get"), p.MethodOf(hv, "FindURL")
 	if hashFn == nil || get == nil || find == nil {
 		r.Anchor("C11.R2", "stickycookie.HashValue.hash/Get/FindURL", "not found")
@@ -123,7 +131,7 @@ func c11Codecs(p *Prog, r *Report) {
 			if c.Common().StaticCallee() != hashFn {
 				continue
 			}
-			arg := stripConv(c.Common().Args[1])
+			arg := stripConv(c.Common().Args[len(c.Common().Args)-1])
 			call, ok := arg.(*ssa.Call)
 			if !ok {
 				return "not a function of the URL: " + arg.String(), false
